@@ -892,7 +892,18 @@ def run_case(case, R):
                             new[side] = (kind, val)
                     lt = BC.COMPOSITION_BC if new['L'][0] == 'comp' else BC.FLUX_BC
                     rt = BC.COMPOSITION_BC if new['R'][0] == 'comp' else BC.FLUX_BC
-                    m.setBC(lt, new['L'][1], rt, new['R'][1], element=e)
+                    # every public way of re-setting a condition (model setter; the conditions object with integer
+                    # or with string sides/types) - added after seeded change C04-h (string sides missed a per-side cache)
+                    api = ['setBC', 'object_int', 'object_str'][int(rbc.integers(0, 3))]
+                    if api == 'setBC':
+                        m.setBC(lt, new['L'][1], rt, new['R'][1], element=e)
+                    elif api == 'object_int':
+                        m.boundaryConditions.setBoundaryCondition(BC.LEFT, lt, new['L'][1], e)
+                        m.boundaryConditions.setBoundaryCondition(BC.RIGHT, rt, new['R'][1], e)
+                    else:
+                        m.boundaryConditions.setBoundaryCondition('left', 'composition' if lt == BC.COMPOSITION_BC else 'flux', new['L'][1], e)
+                        m.boundaryConditions.setBoundaryCondition('right', 'composition' if rt == BC.COMPOSITION_BC else 'flux', new['R'][1], e)
+                    R.observe('bc_changed_via_' + api)
                     mon.spec[k] = new
                 R.observe('bc_changed_between_calls')
     # ---- bookkeeping
